@@ -380,3 +380,16 @@ def shrink(items, still_fails, budget=400):
                 changed = True
                 break
     return items
+
+
+def load_corpus(prop):
+    """minimised past failures (corpus/<prop>/*.json, the `case` format of the replays), replayed first"""
+    import glob
+    from common import VERIF
+    res = []
+    for f in sorted(glob.glob(os.path.join(VERIF, "corpus", prop, "*.json"))):
+        try:
+            res.append(json.load(open(f)))
+        except Exception:
+            pass
+    return res
